@@ -65,6 +65,63 @@ def _var_refs(world: World) -> list[ast.AST]:
     return uniq
 
 
+def _inheritance_by_evaluation(ctx, ck, config_cls, cfg) -> bool:
+    """K4 decided semantically: Config(**overrides) is evaluated (sa/axinterp.py) with a symbolic outer configuration, for every
+    subset of the settings being overridden and for truthy and falsy override values; the state it keeps must hold the
+    override for every named setting and the outer value for every other one.  Returns True when decided."""
+    import itertools
+
+    from ..axinterp import Interp, Obj, Opaque, PyStub, Raised, Undecided, UNK
+
+    world, table = ctx.world, ctx.table
+    state_cls = table.find(f'{CONFIG}.ConfigState')
+    if state_cls is None:
+        return False
+    names = [f.name for f in table.fields(state_cls)]
+    if not names:
+        return False
+    wrong: list[str] = []
+    n = 0
+    falsy = {'solver_throw': False, 'solver_options': {}}
+    for r_ in range(0, len(names) + 1):
+        for subset in itertools.combinations(names, r_):
+            for kind in ('truthy', 'falsy'):
+                if kind == 'falsy' and not any(f in falsy for f in subset):
+                    continue
+                outer = Obj(state_cls, {f: Opaque(f'outer.{f}') for f in names})
+                outer.attrs['__record_fields__'] = tuple(names)
+                var = PyStub()
+                var.get = lambda *a, _o=outer: _o
+                var.set = lambda v: Opaque('token')
+                var.reset = lambda t: None
+                it = Interp(world, table, budget=50_000)
+                it.globals_override[(cfg.name, '_config_var')] = var
+                overrides = {f: (falsy[f] if kind == 'falsy' and f in falsy else Opaque(f'new.{f}')) for f in subset}
+                n += 1
+                try:
+                    obj = it.construct(config_cls, **overrides)
+                except (Raised, Undecided) as exc:
+                    ck.incomplete('K4', config_cls.node, f'Config({", ".join(subset)}) could not be evaluated: {exc}', instance='inheritance by evaluation')
+                    return False
+                if it.degraded:
+                    ck.incomplete('K4', config_cls.node, f'Config({", ".join(subset)}) could not be evaluated: {it.degraded[0]}', instance='inheritance by evaluation')
+                    return False
+                kept = [v for v in obj.attrs.values() if isinstance(v, Obj) and v.cls is state_cls]
+                if len(kept) != 1:
+                    ck.incomplete('K4', config_cls.node, 'the constructor does not keep exactly one configuration state on the instance', instance='inheritance by evaluation')
+                    return False
+                st = kept[0]
+                for f in names:
+                    want = overrides[f] if f in overrides else outer.attrs[f]
+                    got = st.attrs.get(f, UNK)
+                    if not (got is want or (not isinstance(want, Opaque) and not isinstance(got, Opaque) and got == want and type(got) is type(want))):
+                        wrong.append(f'Config({", ".join(f"{k}={overrides[k]!r}" for k in subset)}) inside an outer block keeps {f} = {got!r} instead of {want!r}')
+    init = table.resolve(config_cls, '__init__')
+    ck.expect('K4', not wrong, init.node if init else config_cls.node, f'for all {n} combinations of overridden settings (truthy and falsy values) the state built by Config(...) holds the named settings and inherits the others from the active configuration',
+              f'{wrong[0] if wrong else ""}: a named setting is not overridden, or an unnamed one is not inherited from the enclosing block', instance='inheritance by evaluation', semantic=True)
+    return True
+
+
 def _activation_generators(world, cfg, uses) -> set:
     """Generator context managers (@contextmanager) of config.py that set / reset the variable."""
     out = set()
@@ -377,6 +434,8 @@ def run(ctx, ck) -> None:
             and t[3] == (('**', ('var', kwargs_name)),)
         )
 
+    k4_decided = _inheritance_by_evaluation(ctx, ck, config_cls, cfg)
+    k4_start = len(ck.obs)
     found_k4 = False
     if installed is not None:
         self_enter = enter.node.args.args[0].arg
@@ -411,8 +470,13 @@ def run(ctx, ck) -> None:
     if not found_k4:
         ck.incomplete('K4', enter.node, 'could not determine the value installed by __enter__')
     # replace must be dataclasses.replace
-    ck.expect('K4', world.qualify(cfg, 'replace') == 'dataclasses.replace', f'{CONFIG}.replace', 'replace is dataclasses.replace',
-              'replace is not dataclasses.replace', nontrivial=False)
+    if k4_decided:
+        # the written form replace(current, **kwargs) is one way of inheriting; where it is written another way the evaluation stands
+        ck.obs[:] = [o for i, o in enumerate(ck.obs) if not (i >= k4_start and o.rule.endswith('K4') and o.status != 'ok')]
+    uses_replace = any(isinstance(n, ast.Name) and n.id == 'replace' and isinstance(n.ctx, ast.Load) for n in ast.walk(cfg.tree))
+    if uses_replace:
+        ck.expect('K4', world.qualify(cfg, 'replace') == 'dataclasses.replace', f'{CONFIG}.replace', 'replace is dataclasses.replace',
+                  'replace is not dataclasses.replace', nontrivial=False)
     inst = table.resolve(config_cls, 'instance')
     if inst is None or not isinstance(inst.node, ast.FunctionDef):
         raise AnalysisError('anchor vanished: Config.instance')
